@@ -1,9 +1,10 @@
 // delay: correspondence / oracle harness for C14.
-//   mode 0: Router with MinDelay, no jitter, inside testing/synctest: forward instants are exact
-//           and compared with the model;
-//   mode 1: Router with MinDelay and MaxJitter inside synctest: Spec oracle on the observed log;
-//   mode 2: DelayFilter in real time with one or several concurrently arriving senders: Spec
-//           oracle on the observed log (lower bound, order, exactly once, no panic, all forwarded).
+//
+//	mode 0: Router with MinDelay, no jitter, inside testing/synctest: forward instants are exact
+//	        and compared with the model;
+//	mode 1: Router with MinDelay and MaxJitter inside synctest: Spec oracle on the observed log;
+//	mode 2: DelayFilter in real time with one or several concurrently arriving senders: Spec
+//	        oracle on the observed log (lower bound, order, exactly once, no panic, all forwarded).
 package delay
 
 import (
@@ -28,7 +29,11 @@ func runRouter(h *common.History) {
 	if h.Conf[0] == "3" {
 		jitter = 0
 	}
-	v, err := vnet.VerifNewDelayRouter(d, jitter, 0)
+	qsize := 0
+	if len(h.Conf) > 3 {
+		qsize = common.AtoI(h.Conf[3])
+	}
+	v, err := vnet.VerifNewDelayRouter(d, jitter, qsize)
 	if err != nil {
 		panic(err)
 	}
@@ -128,7 +133,13 @@ func runFilter(h *common.History) {
 		time.Sleep(200 * time.Microsecond)
 	}
 	cancel()
-	wg.Wait()
+	stopped := make(chan struct{})
+	go func() { wg.Wait(); close(stopped) }()
+	select {
+	case <-stopped:
+	case <-time.After(3 * time.Second):
+		panicked = true // the loop neither forwards nor stops: reported like a crashed loop
+	}
 	h.Ops = arr
 	h.Obs = nil
 	for _, g := range got {
@@ -171,6 +182,19 @@ func gen(r *rand.Rand, mode int) *common.History {
 			h.Ops = append(h.Ops, []string{common.I(now), common.I(i + 1)})
 		}
 	case 0, 1:
+		if mode == 0 && r.IntN(3) == 0 {
+			// bounded router queue that is never full and never empty: QueueSize 4, at most 3 chunks in flight (a gap of more than
+			// delay/3 between arrivals), the next arrival always before the head is due
+			d = []int64{6000000, 30000000}[r.IntN(2)]
+			h.Conf = []string{"0", common.I(d), "0", "4"}
+			now := int64(0)
+			for i := 0; i < 12+r.IntN(30); i++ {
+				now += d/3 + 1 + r.Int64N(d/2-d/3)
+				h.Ops = append(h.Ops, []string{common.I(now), common.I(i + 1)})
+			}
+			h.Tags = append(h.Tags, "bounded_queue_below_capacity")
+			return h
+		}
 		jit := int64(0)
 		if mode == 1 {
 			jit = []int64{1000000, 300000, 200000}[r.IntN(3)]
